@@ -10,10 +10,14 @@
 mod audit;
 mod desc;
 mod gen;
-#[cfg(not(any(feature = "r10", feature = "r8")))]
+#[cfg(not(any(feature = "r10", feature = "r8", feature = "r9")))]
 mod gen_r7;
-#[cfg(not(any(feature = "r10", feature = "r8")))]
+#[cfg(not(any(feature = "r10", feature = "r8", feature = "r9")))]
 pub(crate) use gen_r7 as g;
+#[cfg(feature = "r9")]
+mod gen_r9;
+#[cfg(feature = "r9")]
+pub(crate) use gen_r9 as g;
 #[cfg(feature = "r8")]
 mod gen_r8;
 #[cfg(feature = "r8")]
@@ -23,7 +27,15 @@ mod gen_r10;
 #[cfg(feature = "r10")]
 pub(crate) use gen_r10 as g;
 
-pub const ENGINE: &str = if cfg!(feature = "r10") { "worldsim10" } else if cfg!(feature = "r8") { "worldsim8" } else { "worldsim" };
+pub const ENGINE: &str = if cfg!(feature = "r10") {
+    "worldsim10"
+} else if cfg!(feature = "r9") {
+    "worldsim9"
+} else if cfg!(feature = "r8") {
+    "worldsim8"
+} else {
+    "worldsim"
+};
 mod medium;
 mod obs;
 mod ops;
